@@ -33,19 +33,29 @@ PofEv(e) == [pol |-> e.p.pol, fa |-> e.p.fa \div 100, ia |-> e.p.ia \div 100, im
 
 -----------------------------------------------------------------------------
 (* C05: seven entries; conventional entries ordered around Dhuhr; no flags without a policy *)
-Rel(r, p) == CircDiff(r.t[p], r.t[Dhuhr])      \* signed seconds after Dhuhr, in (-12 h, 12 h]
+\* the morning entries are measured as seconds BEFORE that day's Dhuhr, the evening ones as seconds AFTER it,
+\* both in (0, 12 h]; a minute of slack covers rounding of the two clock times in opposite directions
+\* (on the very latitude where twilight stops existing Fajr is exactly 12 h before Dhuhr)
+BeforeDhuhr(r, p) == (r.t[Dhuhr] - r.t[p]) % DaySecs
+AfterDhuhr(r, p) == (r.t[p] - r.t[Dhuhr]) % DaySecs
+HalfDay == 43200 + 60
 \* an entry is "conventionally computed" when it is reported unflagged and the event exists that day,
 \* i.e. the same call under policy None (Ev.a) reports it too
 Conventional(r, p) == Ok(r, p) /\ ~Flagged(r, p) /\ Ok(Ev.a, p)
-Before(r, p, q) == (Conventional(r, p) /\ Conventional(r, q)) => Rel(r, p) < Rel(r, q)
+Both(r, p, q) == Conventional(r, p) /\ Conventional(r, q)
 C05Call ==
     /\ Is("c05") /\ Ev.out = "ret7" /\ WellFormed(Ev.r) /\ WellFormed(Ev.a)
     /\ Ok(Ev.r, Dhuhr)
-    /\ (Conventional(Ev.r, Imsaak) /\ Conventional(Ev.r, Fajr)) => Rel(Ev.r, Imsaak) <= Rel(Ev.r, Fajr)
-    /\ Before(Ev.r, Fajr, Shurooq) /\ Before(Ev.r, Shurooq, Dhuhr) /\ Before(Ev.r, Dhuhr, Asr)
-    /\ Before(Ev.r, Asr, Maghrib) /\ Before(Ev.r, Maghrib, Isha)
-    /\ Before(Ev.r, Imsaak, Shurooq) /\ Before(Ev.r, Fajr, Dhuhr) /\ Before(Ev.r, Dhuhr, Maghrib)
-    /\ Before(Ev.r, Asr, Isha)
+    /\ \A p \in {Imsaak, Fajr, Shurooq} : Conventional(Ev.r, p) =>
+            BeforeDhuhr(Ev.r, p) > 0 /\ BeforeDhuhr(Ev.r, p) <= HalfDay
+    /\ \A p \in {Asr, Maghrib, Isha} : Conventional(Ev.r, p) =>
+            AfterDhuhr(Ev.r, p) > 0 /\ AfterDhuhr(Ev.r, p) <= HalfDay
+    /\ Both(Ev.r, Imsaak, Fajr) => BeforeDhuhr(Ev.r, Imsaak) >= BeforeDhuhr(Ev.r, Fajr)
+    /\ Both(Ev.r, Fajr, Shurooq) => BeforeDhuhr(Ev.r, Fajr) > BeforeDhuhr(Ev.r, Shurooq)
+    /\ Both(Ev.r, Imsaak, Shurooq) => BeforeDhuhr(Ev.r, Imsaak) > BeforeDhuhr(Ev.r, Shurooq)
+    /\ Both(Ev.r, Asr, Maghrib) => AfterDhuhr(Ev.r, Asr) < AfterDhuhr(Ev.r, Maghrib)
+    /\ Both(Ev.r, Maghrib, Isha) => AfterDhuhr(Ev.r, Maghrib) < AfterDhuhr(Ev.r, Isha)
+    /\ Both(Ev.r, Asr, Isha) => AfterDhuhr(Ev.r, Asr) < AfterDhuhr(Ev.r, Isha)
     /\ Ev.p.pol = PNone => \A p \in P7 : ~Flagged(Ev.r, p)
     /\ Step
 
